@@ -492,8 +492,9 @@ def wrong_pair_key(cfg):
 
 def search_nactive_regression(ctx, rebound, fails):
     """fixed input: 5 spheres on a line, (0,1) and (2,3) overlap, 4 is far away, N_active = 3, keep_sorted = 0, no tree,
-    merge resolver.  When (1,0) is resolved first, removing the active particle 1 moves particle 2 into slot 1 and particle 4
-    into slot 2; the pending entry (2,3) is not renumbered and the far-away particle 4 is merged with particle 3."""
+    merge resolver.  Between /repo a7d12d9 and 95ccee5, when (1,0) was resolved first, removing the active particle 1 moved
+    particle 2 into slot 1 and particle 4 into slot 2; the pending entry (2,3) was not renumbered and the far-away particle 4
+    was merged with particle 3."""
     clib = rebound.clibrebound
     f = clib.reb_collision_resolve_merge
     f.argtypes = [ctypes.POINTER(rebound.Simulation), rebound.simulation.CollisionS]
